@@ -114,7 +114,7 @@ def run(ctx):
         if any("::JoinHandle<" in f["ty"] and "std::thread" in f["ty"] for v in adt["variants"] for f in v["fields"]):
             for it in imp["items"]:
                 if it["name"] == "drop":
-                    b = F.bodies.get((BG, it["def"]))
+                    b = F.bodies.get((BG, it.get("uid") or it["def"]))
                     if b:
                         jh_drops.append(b)
     ctx.floor("R05.1", "destructors of join-handle types (ADT holding a thread::JoinHandle)", len(jh_drops), 1)
